@@ -310,14 +310,18 @@ Definition imports_go (f : nat) (root' : string)
       match s with
       | Some i =>
           if is_evaluating i then err ;;; go rest base my
-          else proceed (match is_value i with Some v => v | None => [] end)
+          else match is_value i with
+               | Some v => proceed v
+               | None => go rest base my
+               end
       | None =>
           failed <- call W ;;
           emit (EvLoad n) ;;;
+          let remember_failure := imps_set n {| is_evaluating := false; is_value := None |} in
           match (if failed then LoadFail
                  else match alookup n (w_envs W) with Some l => l | None => LoadFail end) with
-          | LoadFail => err ;;; go rest base my
-          | LoadNoParse => err ;;; go rest base my
+          | LoadFail => err ;;; remember_failure ;;; go rest base my
+          | LoadNoParse => err ;;; remember_failure ;;; go rest base my
           | LoadOk d' =>
               v <- eval_env W f root' n d' ;;
               imps_set n {| is_evaluating := false; is_value := Some v |} ;;;
@@ -335,16 +339,17 @@ Lemma imports_go_cons f root' n merge rest base my :
    match s with
    | Some i =>
        if is_evaluating i then err ;;; imports_go f root' rest base my
-       else imports_go f root' rest
-              (if merge then (match is_value i with Some v => v | None => [] end) ++ base else base)
-              (ainsert n (match is_value i with Some v => v | None => [] end) my)
+       else match is_value i with
+            | Some v => imports_go f root' rest (if merge then v ++ base else base) (ainsert n v my)
+            | None => imports_go f root' rest base my
+            end
    | None =>
        failed <- call W ;;
        emit (EvLoad n) ;;;
        match (if failed then LoadFail
               else match alookup n (w_envs W) with Some l => l | None => LoadFail end) with
-       | LoadFail => err ;;; imports_go f root' rest base my
-       | LoadNoParse => err ;;; imports_go f root' rest base my
+       | LoadFail => err ;;; imps_set n {| is_evaluating := false; is_value := None |} ;;; imports_go f root' rest base my
+       | LoadNoParse => err ;;; imps_set n {| is_evaluating := false; is_value := None |} ;;; imports_go f root' rest base my
        | LoadOk d' =>
            v <- eval_env W f root' n d' ;;
            imps_set n {| is_evaluating := false; is_value := Some v |} ;;;
@@ -361,7 +366,7 @@ Definition env_ctx (root' name : string) (d : envdef) (base : chain) (my : list 
 
 Lemma eval_env_S f root name d :
   eval_env W (S f) root name d =
-  (let root' := if String.eqb root "" then name else root in
+  (let root' := if String.eqb root "" || String.eqb root "<yaml>" then name else root in
    imps_set name {| is_evaluating := true; is_value := None |} ;;;
    r <- imports_go f root' (ed_imports d) [] [] ;;
    let '(base, my) := r in
